@@ -50,7 +50,7 @@ PLANS = {
     'C11': {'jobs': [J('cv', W124, 2), J('cvc', W124, 1), J('relock', W124, 1), J('barc', W124, 1), J('bar', W124, 1), J('cvc', [2], 1, 'asan'), S('cvrace', [2, 4], 2), D('cv', [1, 2], 'CV_,SYNCBLOCKER_,MUTEX_'), D('cvc', [2], 'CV_,SYNCBLOCKER_,MUTEX_CANCEL'), H('cv', [2], 'CV_WAIT_PUSHED,CV_WAIT_UNLOCKED,CV_NOTIFY_POPPED,CV_ERR_CHECK'), J('stale', [1, 2], 1, k=1, random=2), J('cvpoison', W124, 1)]},
     'C12': {'jobs': [J('rwseq', [1], 2), J('rw', W124, 2), J('rwc', W124, 2), J('rwcr', W124, 1), J('rwseq', [1], 1, 'rel'), J('rw', [2], 1, 'rel'),
                      J('rw', [2, 4], 1, 'asan', thorough_only=True), D('rw', [1, 2], 'RW_'), D('rwc', [2], 'RW_,MUTEX_CANCEL'), H('rw', [2], 'RW_LOCK_PUSHED,RW_LOCK_COUNTED,RW_UNLOCK_SUBBED'), J('stale', [1, 2], 1, k=1, random=2)]},
-    'C13': {'jobs': [J('pan', W124, 3), J('pan', [2, 4], 2, 'asan'), D('pan', [2], 'CQ_,SCOPE_,PARK_SUB,RUN_'), J('cvpoison', [1, 2], 1)]},
+    'C13': {'jobs': [J('pan', W124, 3), J('pan', [2, 4], 2, 'asan'), D('pan', [2], 'CQ_,SCOPE_,PARK_SUB,RUN_'), J('cvpoison', [1, 2], 1), J('cq', [1, 2], 1)]},
     'C14': {'jobs': [J('scope', W124, 3), J('selc', W124, 1), J('scope', [2, 4], 1, 'asan'), J('selc', [2], 1, 'asan'), D('scope', [1, 2], 'SCOPE_,JOIN_,CQ_,CANCEL_'), H('selc', [2], 'CQ_DROP_PUSHED,CQ_POLL_COUNTED'), J('cq', W124, 1), H('cq', [2], 'CQ_DROP_PUSHED,CQ_DROP_SUBBED,CQ_POLL_EMPTY,CQ_POLL_COUNTED')]},
     'C15': {'jobs': [J('cls', W124, 3), J('pan', [2], 2), J('cls', [2, 4], 1, 'asan'), D('cls', [2], 'POOL_,SPAWN_,CO_,CANCEL_,YIELD_'), J('cls', [2], 1, fresh=3, k=1, random=0)]},
     'C16': {'jobs': [J('sel', W124, 2), J('cq', W124, 2), J('cq', [2, 4], 1, 'asan'), S('cqrace', [2, 4], 2), D('cq', [1, 2], 'CQ_'), D('sel', [2], 'CQ_'), H('cq', [2, 4], 'CQ_DROP_PUSHED,CQ_POLL_COUNTED'), H('sel', [2], 'CQ_SEND_SUB_PUSHED,CQ_POLL_REGISTERED,CQ_POLL_COUNTED'), J('selc', [2], 1)]},
